@@ -251,6 +251,27 @@ func c14Options(c *run.Ctx, idx uint64) {
 	if c.WantSample() && nOpts > 0 {
 		c.Sample(desc(nil))
 	}
+	if r.Chance(1, 4) {
+		// The process has a past: the decode before this one was given a whole
+		// palette of its own and then failed (the same graphic followed by the
+		// beginning of a path that the input ends in). Nothing of that call may
+		// show in this one.
+		c.Count("after_a_failed_decode_with_a_palette_option", 1)
+		var vivid [64]color.RGBA
+		for i := range vivid {
+			vivid[i] = color.RGBA{uint8(0x40 + i), 0x20, uint8(i), 0xff}
+		}
+		bad := append(append([]byte(nil), b...), 0xc0, 0x80)
+		var failed error
+		if !c.Guard("Decode(failing, with a palette)", func() interface{} { return desc(nil) }, func() {
+			failed = decode.Decode(&rec.Dest{}, bad, decode.WithPalette(vivid))
+		}) {
+			return
+		}
+		if failed == nil {
+			c.Count("the_decode_meant_to_fail_succeeded", 1)
+		}
+	}
 	rect := image.Rect(2, 3, 2+r.Range(4, 40), 3+r.Range(4, 40))
 	rz := &rec.Raster{}
 	var z render.Renderer
